@@ -1702,6 +1702,15 @@ class ClashEval:
                         break
                 break
             flat_ = list(item) if isinstance(item, tuple) else [item]
+            # a candidate handed on as the two (residue, atom) records themselves (pairs mapped through a generator / list first)
+            deep = [y for x in flat_ for y in (list(x) if isinstance(x, tuple) else [x])]
+            ats = [y for y in deep if isinstance(y, AtomS)]
+            if len(ats) == 2 and ats[0] is not ats[1] and pts:
+                ia = next((k_ for k_, p_ in enumerate(pts) if p_ is ats[0]), None)
+                ib = next((k_ for k_, p_ in enumerate(pts) if p_ is ats[1]), None)
+                if ia is not None and ib is not None:
+                    ij = (ia, ib)
+                    break
             if any(isinstance(x, (AtomS, ResidueS)) for x in flat_):
                 break
         if ij is None:
